@@ -276,7 +276,7 @@ def run(ck):
                 env = {'value': 'RAW', 'self._validate': _val, 'self.set_output': lambda v, outs=outs: outs.append(v)}
                 kw_ = put.node.args.kwarg.arg if put.node.args.kwarg else None
                 if kw_:
-                    env[kw_] = {}
+                    env[kw_] = _OtherItems()    # any other data item of the event: must not reach the output
                 res = MiniEval(R2, env, resolve=_resolver(inp)).run(put.node.body)
                 ck.abstract_cases += 1
                 want = (('return', True), [('VALIDATED', 'RAW')]) if accept else (('return', False), [])
@@ -558,3 +558,17 @@ def run(ck):
                   f"evaluated on {len(shapes)} shapes of the stored state: a stored input is replaced by "
                   f"its validated form, everything else is handed on unchanged" if not bad else
                   "; ".join(bad[:3]), rs, rs.node)
+
+
+class _OtherItems(dict):
+    """The remaining data items of an event (**_data): whatever key is read, a marker comes back, so a
+    value that depends on anything but the validated `value` is visible in the outcome of the run."""
+
+    def __contains__(self, key):
+        return True
+
+    def __getitem__(self, key):
+        return ('OTHER-ITEM', key)
+
+    def get(self, key, default=None):
+        return ('OTHER-ITEM', key)
